@@ -1,6 +1,9 @@
 pub mod c01;
 pub mod c18;
 pub mod c19;
+pub mod farm_hist;
+pub mod farmprops;
+pub mod farm_twins;
 pub mod numeric;
 pub mod pool_hist;
 pub mod poolprops;
@@ -35,6 +38,15 @@ fn run_inner(prop: &str, tier: Tier, seed: u64) -> Option<PropReport> {
         "C18" => c18::check(tier, seed),
         "C19" => c19::check(tier, seed),
         "SURVEY19" => c19::check_survey(tier, seed),
+        "DEVF" => farm_hist::dev(tier, seed),
+        p if p.starts_with("DEVF") => farmprops::dev(&p[4..].to_lowercase(), tier, seed),
+        "C05" => farmprops::check_c05(tier, seed),
+        "C06" => farmprops::check_c06(tier, seed),
+        "C07" => farmprops::check_c07(tier, seed),
+        "C08" => farmprops::check_c08(tier, seed),
+        "C09" => farmprops::check_c09(tier, seed),
+        "C10" => farmprops::check_c10(tier, seed),
+        "C11" => farmprops::check_c11(tier, seed),
         p if p.starts_with("DEV") => poolprops::check_dev(tier, seed, &p[3..].to_lowercase()),
         _ => return None,
     })
@@ -54,6 +66,17 @@ fn replay_engine(engine: &str, case: &Value) -> Option<Result<Result<(), String>
         "pool-history-immutability" => replay_case(&poolprops::c16_hist(), case),
         "pool-history-rejections" => replay_case(&poolprops::c20_hist(), case),
         "pool-history-all" => replay_case(&poolprops::all_hist(), case),
+        "farm-history-custody" => replay_case(&farmprops::c05_engine(), case),
+        "farm-history-emission-bound" => replay_case(&farmprops::c06_engine(), case),
+        "farm-history-exact-shares" => replay_case(&farmprops::c07_engine(), case),
+        "farm-history-positions" => replay_case(&farmprops::c08_engine(), case),
+        "farm-history-emergency" => replay_case(&farmprops::c09_engine(), case),
+        "farm-history-weights" => replay_case(&farmprops::c10_engine(), case),
+        "farm-history-lifecycle" => replay_case(&farmprops::c11_engine(), case),
+        "farm-history-rejections" => replay_case(&farmprops::c20_farm_engine(), case),
+        "claim-schedule-twins" => replay_case(&farm_twins::Schedules, case),
+        "emergency-decay-twins" => replay_case(&farm_twins::Decay, case),
+        "farm-history-all" => replay_case(&farm_hist::FarmHist { name: "farm-history-all", mon: farm_hist::all_mon(), weights: crate::farm::ops::FWeights::default(), max_ops_quick: 40, max_ops_thorough: 80, liquidate: true }, case),
         "cp-swap-numeric" => replay_case(&numeric::CpSwap, case),
         "cp-reverse-quote" => replay_case(&numeric::CpReverse, case),
         "ss-swap-value-numeric" => replay_case(&numeric::SsSwapValue, case),
